@@ -8,6 +8,7 @@ See the included GPLv3 LICENSE file
 #include "bhk.hpp"
 #include "NifUtil.hpp"
 
+#include <algorithm>
 #include <fstream>
 #include <regex>
 #include <set>
@@ -541,7 +542,8 @@ void NifFile::SortGraph(NiNode* root, SortState& sortState) {
 
 			if (isRootNode) {
 				// Reorder shapes on root node if order is provided
-				if (sortState.rootShapeOrder.size() == shapeIndices.size()) {
+				if (sortState.rootShapeOrder.size() == shapeIndices.size()
+					&& std::is_permutation(shapeIndices.begin(), shapeIndices.end(), sortState.rootShapeOrder.begin())) {
 					std::vector<uint32_t> newShapeIndices(shapeIndices.size());
 					for (size_t si = 0; si < sortState.rootShapeOrder.size(); si++) {
 						auto it = find(shapeIndices, sortState.rootShapeOrder[si]);
@@ -582,7 +584,8 @@ void NifFile::SortGraph(NiNode* root, SortState& sortState) {
 
 			if (isRootNode) {
 				// Reorder shapes on root node if order is provided
-				if (sortState.rootShapeOrder.size() == shapeIndices.size()) {
+				if (sortState.rootShapeOrder.size() == shapeIndices.size()
+					&& std::is_permutation(shapeIndices.begin(), shapeIndices.end(), sortState.rootShapeOrder.begin())) {
 					std::vector<uint32_t> newShapeIndices(shapeIndices.size());
 					for (size_t si = 0; si < sortState.rootShapeOrder.size(); si++) {
 						auto it = find(shapeIndices, sortState.rootShapeOrder[si]);
